@@ -101,7 +101,7 @@ def main():
     except Exception as e:
       errors.append({"k": "exc", "op": "add", "w": w, "x": x, "exc": repr(e)[:200]})
     # merge layers on the same operand pair
-    for kind in ("Add", "Maximum", "Concatenate") if (a + 2 * b) % 3 == 0 or tier == "thorough" else ("Add",):
+    for kind in ("Add", "Maximum", "Minimum", "Concatenate") if (a + 2 * b) % 3 == 0 or tier == "thorough" else ("Add",):
       try:
         mg = merge_factory.MergeFactory().make_quantizer([(qt[a], None), (qt[b], None)], kind)
         events.append({"op": "merge", "kind": kind, "a": reported(qt[a]), "b": reported(qt[b]), "out": reported(mg.output),
